@@ -177,6 +177,10 @@ pub fn exec(c: &HCase) -> HResult {
                 hi: c.ne,
             };
             run_stack(c, &old, &new)
+        } else if c.index == "alias" {
+            // old and new are the same object (c.old == c.new): two windows of one buffer
+            let buf = rec::items(&c.old);
+            run_stack::<[Item]>(c, &buf[..], &buf[..])
         } else {
             let old = rec::items(&c.old);
             let new = rec::items(&c.new);
@@ -407,6 +411,43 @@ pub fn drive_big(a: &Args, out: &mut Out) {
     }
 }
 
+/// Exhaustive small scope, one representative per relabelling class: every pair (old, new) with
+/// both lengths <= maxlen over at most `alpha` symbols such that old ++ new is a restricted-growth
+/// string (symbols are introduced in the order 0, 1, 2, ...).  Myers at maxlen, Patience and LCS
+/// at maxlen - 1; whole slices, no deadline.
+pub fn drive_exh(a: &Args, out: &mut Out) {
+    let maxlen = a.num("maxlen", if a.thorough() { 7 } else { 6 }) as usize;
+    let alpha = a.num("alpha", 3) as u32;
+    // all restricted-growth strings of length <= 2 * maxlen, cut at every admissible position
+    fn rec_gen(cur: &mut Vec<u32>, maxsym: u32, alpha: u32, maxtotal: usize, f: &mut dyn FnMut(&[u32])) {
+        f(cur);
+        if cur.len() == maxtotal {
+            return;
+        }
+        for sy in 0..=(maxsym.min(alpha - 1)) {
+            cur.push(sy);
+            rec_gen(cur, if sy == maxsym { maxsym + 1 } else { maxsym }, alpha, maxtotal, f);
+            cur.pop();
+        }
+    }
+    let mut strings: Vec<Vec<u32>> = vec![];
+    rec_gen(&mut vec![], 0, alpha, 2 * maxlen, &mut |st| strings.push(st.to_vec()));
+    for st in &strings {
+        let lo = st.len().saturating_sub(maxlen);
+        let hi = st.len().min(maxlen);
+        for cut in lo..=hi {
+            let (x, y) = (&st[..cut], &st[cut..]);
+            for alg in ALGS {
+                if alg != Algorithm::Myers && (x.len() >= maxlen || y.len() >= maxlen) {
+                    continue;
+                }
+                let c = HCase::simple(alg, x, y);
+                run_case(&c, out);
+            }
+        }
+    }
+}
+
 /// C01: no faults, no adapters; whole sequences and sub-ranges; both index kinds;
 /// plus the "sub-range = shifted slice diff" comparison record.
 pub fn drive_c01(a: &Args, out: &mut Out) {
@@ -426,6 +467,25 @@ pub fn drive_c01(a: &Args, out: &mut Out) {
             c2.ne = ne;
             c2.index = if i % 2 == 0 { "window" } else { "slice" };
             let sub = run_case(&c2, out);
+            // both sides are windows of ONE buffer (the same object passed twice): x ++ y with
+            // the two halves as ranges, or two arbitrary (overlapping, equally long) windows
+            if i % 3 == 0 {
+                let mut buf = x.clone();
+                buf.extend(y.iter().cloned());
+                let mut c3 = HCase::simple(alg, &buf, &buf);
+                c3.index = "alias";
+                if i % 2 == 0 {
+                    c3.oe = x.len();
+                    c3.ns = x.len();
+                } else if !buf.is_empty() {
+                    let l = rng.below(buf.len() + 1);
+                    c3.os = rng.below(buf.len() - l + 1);
+                    c3.oe = c3.os + l;
+                    c3.ns = rng.below(buf.len() - l + 1);
+                    c3.ne = c3.ns + l;
+                }
+                run_case(&c3, out);
+            }
             // shifted comparison
             let case = out.next_case();
             out.emit(&json!({"ev":"shiftcmp","case":case,"alg":alg_name(alg),
